@@ -4,12 +4,15 @@ import graphs as gr
 
 PROP = "C19"
 RULE = ("every directed mixed graph CYC(n) (any subset of the n(n-1) directed and n(n-1)/2 bidirected edges) n<=3 complete, "
-        "plus 1500 (quick) / 50000 (thorough) sampled n=4 (half of them with edge probability 1/4), the design's two witnesses, "
+        "plus 1200 (quick) / 50000 (thorough) sampled n=4 (half of them with edge probability 1/4), the design's two witnesses, "
         "all pairwise-disjoint (X,Y,Z) with X<Y; seeded random n<=8 (sigma oracle up to n=6 and 14 edges), half of them "
         "built from 2-3 non-trivial strongly connected components feeding each other; graphs without a bidirected edge also "
-        "with the bidirected layer absent; distinct by (canonical graph, layers); non-trivial = the graph has a directed cycle "
+        "with the bidirected layer absent; every small graph, a quarter of the n=4 samples and half of the random ones again as "
+        "REPEAT case (object built and queried for a neighbour graph with one edge reversed/moved, edited in place, judged; the "
+        "returned graph is edited and the call repeated, also on G.copy(); frozenset arguments) and a CUSTOM edge-type names stream "
+        "for acyclification (beyond the property's quantifier); distinct by (canonical graph, layers, repeat, names); non-trivial = the graph has a directed cycle "
         "and the queries contain a sigma-separated and a sigma-connected one")
-EXHAUSTIVE = {"quick": "all CYC(n) n<=3, all disjoint X,Y,Z (n=4: 1500 sampled)", "thorough": "all CYC(n) n<=3, all disjoint X,Y,Z (n=4: 50000 sampled)"}
+EXHAUSTIVE = {"quick": "all CYC(n) n<=3, all disjoint X,Y,Z (n=4: 1200 sampled)", "thorough": "all CYC(n) n<=3, all disjoint X,Y,Z (n=4: 50000 sampled)"}
 TRUSTED = ["networkx strongly_connected_components / complete_graph and their yield order taken at face value",
            "m_separated (property C01) is what sigma_separated delegates to"]
 ASSUMPTIONS = ["default edge-type names", "only directed and bidirected layers (the property's domain)", "int labels (label families: C15)"]
@@ -28,6 +31,7 @@ LEVEL_NOTE = ("The unbounded sigma-separation theorem (Forre-Mooij 2017 / Mooij-
               "behaviour are observed by correspondence only; sigma_separated delegates to m_separated (property C01).")
 TECHNIQUE = "Coq proof (model = characterisation, unbounded; sigma clause bounded by vm_compute) + extracted-model correspondence (tie K)"
 SPOT_N = 10
+NAME_SETS = [["dir", "bidir"], ["bidirected", "directed"], ["->", "<->"]]
 
 
 def queries(nodes, rng=None, limit=None):
@@ -129,24 +133,41 @@ def gen_cases(tier, rng):
             qs = queries(g["V"])
             for layers in variants(g):
                 yield {"kind": "cyc%d" % n, "g": g, "layers": layers, "qs": qs, "oracle": True}
+            # REPEAT stream (every small graph with an edge) and CUSTOM NAMES stream (acyclification only: sigma_separated
+            # has no edge-type parameters)
+            if g["D"] or g["B"]:
+                yield {"kind": "rep%d" % n, "g": g, "layers": ["directed", "bidirected"], "qs": qs, "oracle": True,
+                       "rep": rng.randrange(1 << 30)}
+                if code % 4 == 0:
+                    yield {"kind": "names%d" % n, "g": g, "layers": ["directed", "bidirected"], "qs": [], "oracle": True,
+                           "names": NAME_SETS[(code // 4) % len(NAME_SETS)],
+                           **({"rep": rng.randrange(1 << 30)} if code % 8 == 0 else {})}
     # the design's witness and its bidirected sibling, always
     for g in (gr.G(range(4), D=[[0, 1], [1, 0], [1, 2], [2, 3], [3, 2]]),
               gr.G(range(4), D=[[0, 1], [1, 0], [2, 3], [3, 2]], B=[[1, 2]])):
         yield {"kind": "witness", "g": g, "layers": ["directed", "bidirected"], "qs": queries(g["V"]), "oracle": True}
-    n4 = 1500 if tier == "quick" else 50000
+    n4 = 1200 if tier == "quick" else 50000
     for i in range(n4):
         code = rng.randrange(n_codes(4))
         if i % 2:
             code &= rng.randrange(n_codes(4))      # sparser half: every edge with probability 1/4
         g = cyc_from_code(4, code)
-        yield {"kind": "cyc4s", "g": g, "layers": ["directed", "bidirected"], "qs": queries(g["V"]), "oracle": True}
-    nr = 300 if tier == "quick" else 3000
+        c = {"kind": "cyc4s", "g": g, "layers": ["directed", "bidirected"], "qs": queries(g["V"]), "oracle": True}
+        if i % 4 == 0 and (g["D"] or g["B"]):
+            c.update(kind="cyc4s-rep", rep=rng.randrange(1 << 30))
+        yield c
+    nr = 400 if tier == "quick" else 4000
     for i in range(nr):
         n = rng.randint(4, 8)
         g = random_components_graph(rng, n) if i % 2 == 0 else random_digraph(rng, n)
         layers = ["directed"] if not g["B"] and rng.random() < 0.3 else ["directed", "bidirected"]
-        yield {"kind": "comps" if i % 2 == 0 else "rand", "g": g, "layers": layers, "qs": rand_queries(rng, n, 25),
-               "oracle": n <= 6 and len(g["D"]) + len(g["B"]) <= 14}
+        c = {"kind": "comps" if i % 2 == 0 else "rand", "g": g, "layers": layers, "qs": rand_queries(rng, n, 25),
+             "oracle": n <= 6 and len(g["D"]) + len(g["B"]) <= 14}
+        if i % 4 in (2, 3) and (g["D"] or g["B"]):
+            c.update(kind=c["kind"] + "-rep", rep=rng.randrange(1 << 30))
+        elif i % 8 == 1:
+            c.update(kind=c["kind"] + "-names", names=rng.choice(NAME_SETS), qs=[])
+        yield c
 
 
 def encode(case):
@@ -162,22 +183,88 @@ def decode(case, v):
     return out
 
 
+def build(g, case):
+    """MixedEdgeGraph for g with exactly case["layers"]; custom layer names from case["names"] = [directed, bidirected]"""
+    names = case.get("names")
+    if not names:
+        M, lab, inv = gr.to_mixed(g, case, layers=tuple(case["layers"]))
+        return M, lab, inv, "directed", "bidirected"
+    import networkx as nx
+    import pywhy_graphs.networkx as pywhy_nx
+    dn, bn = names
+    lab, inv = gr.labeler(case)
+    has_b = "bidirected" in case["layers"]
+    M = pywhy_nx.MixedEdgeGraph(graphs=[nx.DiGraph()] + ([nx.Graph()] if has_b else []), edge_types=[dn] + ([bn] if has_b else []))
+    for v in gr.ordered(case, g["V"], "V"):
+        M.add_node(lab(v))
+    es = [(dn, a, b) for a, b in g["D"]] + ([(bn, a, b) for a, b in g["B"]] if has_b else [])
+    for k, a, b in gr.ordered(case, es, "E"):
+        M.add_edge(lab(a), lab(b), k)
+    return M, lab, inv, dn, bn
+
+
+def extract(R, inv, dn, bn):
+    out = {"V": sorted(inv(v) for v in R.nodes), "D": [], "B": [], "other": []}
+    for name, lg in R.get_graphs().items():
+        for a, b in lg.edges():
+            a, b = inv(a), inv(b)
+            if name == dn:
+                out["D"].append([a, b])
+            elif name == bn:
+                out["B"].append(sorted([a, b]))
+            else:
+                out["other"].append([name, a, b])
+    for k in ("D", "B", "other"):
+        out[k] = sorted(out[k])
+    return out
+
+
 def run_impl(case):
+    import random
     from pywhy_graphs.algorithms.cyclic import acyclification, sigma_separated
-    M, lab, inv = gr.to_mixed(case["g"], case, layers=tuple(case["layers"]))
+    g = case["g"]
+    rep = case.get("rep")
+    kw = {}
+    if case.get("names"):
+        kw = {"directed_edge_type": case["names"][0], "bidirected_edge_type": case["names"][1]}
+    mkset = frozenset if rep is not None and rep % 2 else set
+
+    def sigma(Mx):
+        res = []
+        for X, Y, Z in case["qs"]:
+            try:
+                res.append(int(bool(sigma_separated(Mx, mkset(lab(v) for v in X), mkset(lab(v) for v in Y),
+                                                    mkset(lab(v) for v in Z)))))
+            except Exception as e:  # noqa
+                res.append("exc:" + type(e).__name__)
+        return res
+
+    if rep is None:
+        M, lab, inv, dn, bn = build(g, case)
+    else:
+        # REPEAT: the object is built and used for a neighbour graph (same node and edge counts where possible: one edge
+        # reversed or moved), the answers are discarded, then it is edited in place into g
+        rr = random.Random(rep)
+        g0 = gr.perturb(g, rr, acyclic=False) or gr.perturb(g, rr, keep_counts=False, acyclic=False) or g
+        M, lab, inv, dn, bn = build(g0, case)
+        acyclification(M, **kw)
+        sigma(M)
+        gr.morph(M, g0, g, lab, {"D": dn, "B": bn} if "bidirected" in case["layers"] else {"D": dn})
     before = gr.snapshot(M)
-    R = acyclification(M)
+    R = acyclification(M, **kw)
     out = {"mutated": gr.snapshot(M) != before, "same_object": R is M}
-    h = gr.from_mixed(R, inv)
-    out.update(V=h["V"], D=h["D"], B=h["B"], other=sorted(h["U"] + h["C"] + h.get("X", [])))
-    res = []
-    for X, Y, Z in case["qs"]:
-        try:
-            res.append(int(bool(sigma_separated(M, {lab(v) for v in X}, {lab(v) for v in Y}, {lab(v) for v in Z}))))
-        except Exception as e:  # noqa
-            res.append("exc:" + type(e).__name__)
-    out["sigma"] = res
+    out.update(extract(R, inv, dn, bn))
+    out["sigma"] = sigma(M)
     out["mutated_by_sigma"] = gr.snapshot(M) != before
+    if rep is not None:
+        # the caller edits the returned graph; a second conversion of the same object, and of a copy, must still be right
+        first = extract(R, inv, dn, bn)
+        for x in list(R.nodes)[:2]:
+            R.remove_node(x)
+        out["second_call_same"] = extract(acyclification(M, **kw), inv, dn, bn) == first
+        Mc = M.copy()
+        out["copy_same"] = extract(acyclification(Mc, **kw), inv, dn, bn) == first and sigma(Mc) == out["sigma"]
+        out["mutated"] = out["mutated"] or gr.snapshot(M) != before
     return out
 
 
@@ -200,6 +287,10 @@ def compare(case, impl, model):
         return "other-layers"
     if impl["sigma"] != model["sigma"]:
         return "sigma_separated"
+    if impl.get("second_call_same") is False:
+        return "second-call-after-editing-the-result"
+    if impl.get("copy_same") is False:
+        return "result-on-copy"
     return None
 
 
@@ -209,7 +300,7 @@ def nontrivial(case, model):
 
 
 def key(case):
-    return (gr.canon(case["g"]), tuple(case["layers"]))
+    return (gr.canon(case["g"]), tuple(case["layers"]), case.get("rep") is not None, tuple(case.get("names") or ()))
 
 
 def shrink(case):
